@@ -10,29 +10,30 @@ import Sqfs.Spec.QuoteFs
   split <hexline>                                   → `ok <n> <tok>...` | `err quote` | `err esc`
   splitsep <hexsep> <hexline>                       → the same with another separator set (sort files use ",")
   possep <hexsep> <hexline>                         → `pos` with another separator set
-  esc <cur|fix> <hex>                               → `ok <hex>` | `err newline`      (`print_escaped` alone)
+  esc <cur|nolf> <hex>                              → `ok <hex>` | `err newline`      (`print_escaped` alone)
   dev <devno>                                       → `<major> <minor> <makedev(major, minor)>`   (glibc macros)
   mkdev <major> <minor>                             → `<makedev(major, minor)>`
   pos <hexline>                                     → `ok <dst>:<src> ...`   (cursor pairs at each token start)
   num <base> <vmax> <hex>                           → `ok <n>` | `err corrupted|overflow|oob`
   parse <keepUid> <forceUid> <keepGid> <forceGid> <hexcontent>
-                                                    → `ents <k> {<name> <mode> <uid> <gid> <rdev> <extra|NULL>}* st=<status>`
-  desc <cur|fix|old> <root|NONE> <kind> <perm> <uid> <gid> <devno> <target> <ncomps> <comp>...
+                                                    → `ents <k> {<name> <mode> <uid> <gid> <rdev> <flags> <extra|NULL>}* st=<status>`
+  desc <cur|nolf|old> <root|NONE> <kind> <perm> <uid> <gid> <devno> <target> <ncomps> <comp>...
                                                     → `ok <hexline>` | `err <why>`
   expect <root|NONE> <kind> <perm> <uid> <gid> <devno> <target> <ncomps> <comp>...
                                                     → `ents 1 …` in the format of `parse` (the specification), or `ents 0 st=ok`
-  dtree <cur|fix|old> <root|NONE> <n> {<depth> <kind> <perm> <uid> <gid> <devno> <target> <name>}*   (pre-order, depth of root = 0)
+  dtree <cur|nolf|old> <root|NONE> <n> {<depth> <kind> <perm> <uid> <gid> <devno> <target> <name>}*   (pre-order, depth of root = 0)
                                                     → `ok <hex output>` | `err <why>`
   etree <root|NONE> <n> {…as dtree…}                → `ents <k> …`: the specification `specTree` of the whole tree
 
   fsbuild <keepUid> <forceUid> <keepGid> <forceGid> <defUid> <defGid> <defMode> <defMtime> <hexcontent>
-                                                    → `tree <n> {<depth> <name> <mode> <uid> <gid> <mtime> <linkcount> <implicit> <rdev> <extra|NULL>}* st=<status>`
+                                                    → `tree <n> {<depth> <name> <mode> <uid> <gid> <mtime> <linkcount> <flags: 1 implicit, 4 hard link> <rdev> <extra|NULL>}* st=<status>`
                                                       (`Sqfs.QuoteFs.buildFromFile`: the pack file through the real `fstree_add_generic`)
   ntree <defUid> <defGid> <defMode> <defMtime> <root|NONE> <n> {…as dtree…}
                                                     → the same dump of the specification `Sqfs.QuoteFs.normTree`
 
-`cur` = describe.c as in /repo (`Sqfs.Quote`), `fix` = with fixes/C16-describe-newline.patch (`Sqfs.QuoteLF`),
-`old` = the pinned snapshot before 96e45c1 (`Sqfs.QuoteOld`; only used to name a regression).  `new` is read as `cur`.
+`cur` = describe.c as in /repo (`Sqfs.QuoteLF`: quoting of 96e45c1, line-feed test of 4b35342); the other two only name a
+regression: `nolf` = without the line-feed test (`Sqfs.Quote`), `old` = the pinned snapshot before 96e45c1 (`Sqfs.QuoteOld`).
+Any other selector (`new`, `fix`) is read as `cur`.
 -/
 namespace Driver.C16
 open Sqfs.Quote
@@ -54,7 +55,7 @@ def showDErr : DErr → String
   | .insaneName => "insane" | .path => "path" | .canon => "canon" | .newline => "newline"
 
 def showEntry (e : Entry) : String :=
-  s!"{toHexTok e.name} {e.mode} {e.uid} {e.gid} {e.rdev} " ++ (match e.extra with | none => "NULL" | some x => toHexTok x)
+  s!"{toHexTok e.name} {e.mode} {e.uid} {e.gid} {e.rdev} {e.flags} " ++ (match e.extra with | none => "NULL" | some x => toHexTok x)
 
 def showParse (r : List Entry × Option FErr) : String :=
   let st := match r.2 with
@@ -98,11 +99,12 @@ def parseNodes : List String → Option (List (Nat × Sqfs.Path.Bytes × Node))
 
 def showFlat (x : Nat × List UInt8 × Sqfs.QuoteFs.FAttr) : String :=
   let (depth, name, a) := x
-  s!" {depth} {toHexTok name} {a.mode} {a.uid} {a.gid} {a.mtime} {a.linkCount} {if a.implicit then 1 else 0} {a.rdev} " ++
+  s!" {depth} {toHexTok name} {a.mode} {a.uid} {a.gid} {a.mtime} {a.linkCount} {(if a.implicit then 1 else 0) + (if a.hard then 4 else 0)} {a.rdev} " ++
     (match a.extra with | none => "NULL" | some x => toHexTok x)
 
 def showFsErr : Sqfs.QuoteFs.FsErr → String
   | .inval => "inval" | .range => "range" | .notdir => "notdir" | .exist => "exist" | .mlink => "mlink"
+  | .nametoolong => "nametoolong"
 
 def showBuild (r : Sqfs.QuoteFs.FNode × Option Sqfs.QuoteFs.BuildErr) : String :=
   let st := match r.2 with
@@ -115,13 +117,13 @@ def showBuild (r : Sqfs.QuoteFs.FNode × Option Sqfs.QuoteFs.BuildErr) : String 
 
 def descNode (which : String) (ur : Option (List UInt8)) (cs : List (List UInt8)) (n : Node) : Except DErr (List UInt8) :=
   if which = "old" then Sqfs.QuoteOld.describeNode ur cs n
-  else if which = "fix" then Sqfs.QuoteLF.describeNode ur cs n
-  else describeNode ur cs n
+  else if which = "nolf" then describeNode ur cs n
+  else Sqfs.QuoteLF.describeNode ur cs n
 
 def descTree (which : String) (ur : Option (List UInt8)) (t : Tree) : Except DErr (List UInt8) :=
   if which = "old" then Sqfs.QuoteOld.describe ur t
-  else if which = "fix" then Sqfs.QuoteLF.describe ur t
-  else describe ur t
+  else if which = "nolf" then describe ur t
+  else Sqfs.QuoteLF.describe ur t
 
 def treeOf (cnt : String) (rest : List String) : Option Tree :=
   match cnt.toNat?, parseNodes rest with
@@ -150,11 +152,11 @@ def step (line : String) : String :=
     | _, _ => "bad-op"
   | ["esc", which, h] => match fromHex h with
     | some s =>
-      if which = "fix" then
+      if which = "nolf" then "ok " ++ toHexTok (printEscaped s)
+      else
         match Sqfs.QuoteLF.printEscaped s with
         | .ok x => "ok " ++ toHexTok x
         | .error e => "err " ++ showDErr e
-      else "ok " ++ toHexTok (printEscaped s)
     | none => "bad-op"
   | ["dev", d] => match d.toNat? with
     | some d => s!"{devMajor d} {devMinor d} {makedev (devMajor d) (devMinor d)}"
